@@ -22,8 +22,9 @@ SPECIAL4 = [bytes(4), b"\xff\xff\xff\xff", bytes([127, 0, 0, 1]), bytes([224, 0,
 def rnd_ip4(rng, special=0.0):
     if special and rng.random() < special:
         return rng.choice(SPECIAL4)
+    # hosts whose last octet is 0 or 255 are ordinary unicast hosts in any network wider than a /24
     return bytes([rng.choice([10, 172, 192, 1, 100, 203, rng.randrange(1, 224)]), rng.getrandbits(8), rng.getrandbits(8),
-                  rng.randrange(1, 255)])
+                  rng.choice([0, 255]) if rng.random() < 0.04 else rng.randrange(1, 255)])
 
 
 def rnd_ip6(rng, special=0.0):
@@ -77,11 +78,27 @@ def endp(rng, cfg, v6, in_scope=True):
         sip = rng.choice(cands) if cands else (rnd_ip6(rng) if v6 else rnd_ip4(rng))
     else:
         sip = rnd_ip6(rng) if v6 else rnd_ip4(rng)
+    smac = cfg.mac
+    if not cfg.selfips and in_scope and rng.random() < 0.04:
+        # without a self-IP list every destination address is handled: group and broadcast addresses included
+        if v6:
+            sip = rng.choice([pkt.ip("ff02::1"), pkt.ip("ff02::2"), pkt.solicited_node(rnd_ip6(rng)), pkt.ip("ff05::1:3")])
+            smac = rng.choice([cfg.mac, pkt.ALLNODES_MAC])
+        else:
+            sip = rng.choice([pkt.ip("224.0.0.1"), pkt.ip("224.0.0.251"), pkt.ip("255.255.255.255"), rnd_ip4(rng)[:3] + b"\xff"])
+            smac = rng.choice([cfg.mac, pkt.BCAST])
     while True:
         cip = rnd_ip6(rng, special=0.03) if v6 else rnd_ip4(rng, special=0.03)
+        k = rng.random()
+        if k < 0.02:
+            cip = sip                                   # a peer using the very address it talks to (reflection, loopback tests)
+        elif k < 0.04 and cfg.selfips:
+            same = [a for a in cfg.selfips if (len(a) == 16) == v6]
+            if same:
+                cip = rng.choice(same)                  # a peer that is another of the responder's own addresses
         if not cfg.deny or cip not in cfg.deny:
             break
-    return pkt.Endp(rnd_mac(rng), cfg.mac, cip, sip, fuzz=rng)
+    return pkt.Endp(rnd_mac(rng), smac, cip, sip, fuzz=rng)
 
 
 # ------------------------------------------------------------------------------------------------
@@ -105,6 +122,19 @@ def app_requests(rng):
     out.append(("ssh", sshghost.gen_banner(rng), None))
     out.append(("ghost", sshghost.gen_ghost(rng), None))
     return [(n, u, t if t is not None else u) for n, u, t in out]
+
+
+def tcp_payload(rng):
+    """One TCP application payload: a valid request of some protocol, a request with a single grammar fault (still
+    carrying its protocol's signature), or a parser-hostile byte string."""
+    k = rng.random()
+    if k < 0.5:
+        return rng.choice(app_requests(rng))[2]
+    if k < 0.75:
+        return http.fault(rng, http.gen_parts(rng), rng.choice(http.FAULTS))
+    if k < 0.85:
+        return sshghost.gen_bad_banner(rng, rng.choice(sshghost.SSH_FAULTS))
+    return rng.choice(hostile_payloads(rng))[1]
 
 
 UNIT_TEST_PAYLOADS = [
@@ -155,6 +185,72 @@ def l2l4_seeds(rng, cfg):
                                                    b"data" if "psh" in nm else b"")))
         out.append(("tcp%s_opts" % v, e.tcp(sp, dp, 1, 0, SYN, b"", off=8, opts=b"\x02\x04\x05\xb4\x01\x03\x03\x07\x04\x02\x00\x00")))
         out.append(("udp%s_empty" % v, e.udp(sp, dp, b"")))
+    base = dict(out)
+    for nm in ("arp_req", "echo4", "echo6", "ns", "tcp4_syn", "tcp6_syn"):
+        for f in encapsulated(rng, base[nm], types=[rng.choice(ENCAP_TYPES), 0x8100]):
+            out.append(("encap_" + nm, f))
+    out.extend(icmp_noise(rng, cfg, e4, e6))
+    return out
+
+
+ENCAP_TYPES = [0x8100, 0x88A8, 0x9100, 0x9200, 0x8847, 0x8848, 0x8864, 0x88E7, 0x893F]
+
+
+def encapsulated(rng, f, types=None):
+    """Variants of an (answerable) frame wrapped in a link-layer encapsulation the responder does not implement:
+    802.1Q / 802.1ad / QinQ tags, MPLS label stacks, PPPoE session header.  The outer EtherType is unsupported, so
+    the contract is silence - and in any case never an answer with another EtherType."""
+    out = []
+    for et in types or ENCAP_TYPES:
+        if et in (0x8847, 0x8848):
+            shim = struct.pack("!I", (rng.getrandbits(20) << 12) | 0x100 | rng.choice([1, 64, 255]))     # bottom-of-stack label
+            out.append(f[:12] + struct.pack("!H", et) + shim + f[14:])
+        elif et == 0x8864:
+            out.append(f[:12] + struct.pack("!HBBHHH", et, 0x11, 0, rng.getrandbits(16), len(f) - 12, 0x0021 if f[12:14] == b"\x08\x00" else 0x0057) + f[14:])
+        else:
+            tci = struct.pack("!H", rng.choice([0, 1, 5, 100, 4095, rng.getrandbits(16)]))
+            out.append(f[:12] + struct.pack("!H", et) + tci + f[12:])
+            if rng.random() < 0.3:
+                out.append(f[:12] + struct.pack("!H", et) + tci + struct.pack("!H", 0x8100) + tci + f[12:])   # double tag
+    return out
+
+
+def icmp_noise(rng, cfg, e4=None, e6=None, quoted=None):
+    """ICMP / ICMPv6 messages other than echo / neighbour solicitation that real networks deliver to a host:
+    errors quoting a TCP / UDP packet the responder may have sent (backscatter), router advertisements and
+    solicitations, redirects, multicast listener queries, timestamp / information requests.  None is answerable and
+    none may leave a trace (C05 / C08 / C09).  `quoted`: (sport, dport) of the quoted flow, responder side first."""
+    e4 = e4 or endp(rng, cfg, False)
+    e6 = e6 or endp(rng, cfg, True)
+    sp, dp = quoted or (rnd_port(rng), rnd_port(rng))
+    out = []
+    # the quoted packet: responder -> client
+    seg4 = pkt.tcp(e4.sip, e4.cip, sp, dp, rng.getrandbits(32), rng.getrandbits(32), rng.choice([SYN | ACK, ACK, PSH | ACK]))
+    q4 = pkt.ip4(e4.sip, e4.cip, P_TCP, seg4)
+    u4 = pkt.ip4(e4.sip, e4.cip, P_UDP, pkt.udp(e4.sip, e4.cip, sp, dp, b"\0" * 12))
+    for typ, code in ((3, 0), (3, 1), (3, 3), (3, 4), (3, 13), (11, 0), (4, 0), (5, 1), (12, 0)):
+        for q in (q4, u4):
+            body = q[:rng.choice([28, 28, 24, 40, len(q)])]
+            rest = (e4.sip if typ == 5 else b"\0\0" + struct.pack("!H", 1400 if code == 4 else 0)) + body
+            out.append(("icmp4_err", e4.l3(P_ICMP, pkt.icmp4(typ, code, rest))))
+    for typ in (13, 15, 17, 10, 9):
+        out.append(("icmp4_misc", e4.l3(P_ICMP, pkt.icmp4(typ, 0, struct.pack("!HH", rng.getrandbits(16), 1) + b"\0" * 12))))
+    seg6 = pkt.tcp(e6.sip, e6.cip, sp, dp, rng.getrandbits(32), rng.getrandbits(32), rng.choice([SYN | ACK, ACK, PSH | ACK]))
+    q6 = pkt.ip6(e6.sip, e6.cip, P_TCP, seg6)
+    for typ, code in ((1, 0), (1, 1), (1, 4), (2, 0), (3, 0), (4, 1)):
+        rest = struct.pack("!I", 1280 if typ == 2 else 0) + q6[:rng.choice([48, 60, len(q6)])]
+        out.append(("icmp6_err", e6.l3(P_ICMP6, pkt.icmp6(e6.cip, e6.sip, typ, code, rest))))
+    # router advertisement / solicitation, redirect, MLD query: from a link-local router to all-nodes or to us
+    ll = bytes.fromhex("fe80000000000000") + bytes(rng.getrandbits(8) for _ in range(8))
+    allnodes = pkt.ip("ff02::1")
+    for hl in (1, 2, 32, 64, 128, 255, rng.randrange(1, 256)):
+        ra = bytes([hl, rng.choice([0, 0x40, 0x80, 0xC0])]) + struct.pack("!HII", rng.choice([0, 1800, 9000]), rng.getrandbits(32), rng.getrandbits(32)) + \
+            b"\x01\x01" + e6.cmac + (b"\x05\x01\0\0" + struct.pack("!I", 1500) if rng.random() < 0.5 else b"")
+        for dst, dmac in ((allnodes, pkt.ALLNODES_MAC), (e6.sip, e6.smac)):
+            out.append(("icmp6_ra", pkt.eth(dmac, e6.cmac, ET_IP6, pkt.ip6(ll, dst, P_ICMP6, pkt.icmp6(ll, dst, 134, 0, ra), hlim=255))))
+    out.append(("icmp6_rs", pkt.eth(pkt.ALLNODES_MAC, e6.cmac, ET_IP6, pkt.ip6(ll, allnodes, P_ICMP6, pkt.icmp6(ll, allnodes, 133, 0, b"\0\0\0\0\x01\x01" + e6.cmac), hlim=255))))
+    out.append(("icmp6_redirect", pkt.eth(e6.smac, e6.cmac, ET_IP6, pkt.ip6(ll, e6.sip, P_ICMP6, pkt.icmp6(ll, e6.sip, 137, 0, b"\0\0\0\0" + ll + e6.cip), hlim=255))))
+    out.append(("icmp6_mldq", pkt.eth(pkt.ALLNODES_MAC, e6.cmac, ET_IP6, pkt.ip6(ll, allnodes, P_ICMP6, pkt.icmp6(ll, allnodes, 130, 0, struct.pack("!HH", 10000, 0) + bytes(16)), hlim=1))))
     return out
 
 
